@@ -25,9 +25,9 @@ from eng_rbc import tla_val, Rec
 MON = {
     "C06": ["InitGetsSortedPartyIds", "DuplicatePartyRefused", "OnMsgAttributedToPartyOfSender", "P2PGoesToTheSessionReplica",
             "BroadcastGoesToTheParticipants"],
-    "C11": ["CancelReturnsError", "FailureReturnsError", "PreconditionErrorReturned", "NoPanic"],
+    "C11": ["CancelReturnsError", "FailureReturnsError", "PreconditionErrorReturned", "NoPanic", "NeverWedged"],
     "C12": ["NoPanic", "ConcurrentSameTopicRefused", "AdmittedAndSucceeds", "AdmittedWhenNoSessionOnTopic", "LaterCallSucceeds",
-            "LateTrafficNoEffect", "ForeignNeverReachesInstance"],
+            "LateTrafficNoEffect", "ForeignNeverReachesInstance", "NeverWedged"],
 }
 
 SELF = 11
@@ -40,7 +40,7 @@ def P(s1="ok", prep="ok", s2="ok", be="ok", late="none"):
     return Rec(s1=s1, prep=prep, s2=s2, be=be, late=late)
 
 
-PLANS = [P(), P(s1="err"), P(prep="dup"), P(prep="share"), P(s2="err"), P(be="err"), P(late="s1"), P(late="s2"), P(late="be")]
+PLANS = [P(), P(s1="err"), P(prep="dup"), P(prep="share"), P(s2="err"), P(be="err"), P(late="s1"), P(late="reg"), P(late="s2"), P(late="be")]
 KINDS = [("kg", "DKG"), ("sg", "T1"), ("sg", "T2")]
 INJECTS = [Rec(kind="mpc", topic="T1", **{"from": 12}), Rec(kind="mpc", topic="T1", **{"from": 14}), Rec(kind="sync", topic="T1", **{"from": 12}),
            Rec(kind="sync", topic="T12", **{"from": 12}), Rec(kind="mpc", topic="DKG", **{"from": 12}), Rec(kind="sync", topic="DKG2", **{"from": 13})]
@@ -103,7 +103,7 @@ def quiesce_and_probe(ops, cs, next_id):
         k = cs[c]
         if k["kind"]:
             topics.add((k["kind"], k["topic"]))
-        if k["st"] in ("s1", "s2", "be", "stuck"):
+        if k["st"] in ("s1", "reg", "s2", "be", "stuck"):
             ops.append(op("cancel", c=int(c), expect="ret"))
             if k["late"] == k["st"]:
                 ops.append(op("late", c=int(c), label=k["st"], expect="none"))
